@@ -133,13 +133,22 @@ const KEY: &str = include_str!("/repo/lib/assets/key.pem");
 const CERT2: &str = include_str!("/repo/lib/assets/cert_test.pem");
 const KEY2: &str = include_str!("/repo/lib/assets/key_test.pem");
 
-/// scripted backends: answer every request with 200 and a two-byte tag ("b0" / "b1")
-fn start_backends(base: u16) {
+type Stop = std::sync::Arc<std::sync::atomic::AtomicBool>;
+
+/// scripted backends: answer every request with 200 and a two-byte tag ("b0" / "b1");
+/// they go away (and free their ports) when `stop` is raised at the end of the case
+fn start_backends(base: u16, stop: &Stop) {
     for i in 0..2u16 {
         let l = std::net::TcpListener::bind(("127.0.0.1", base + 4 + i)).expect("bind scripted backend");
+        l.set_nonblocking(true).ok();
+        let stop = stop.clone();
         std::thread::spawn(move || {
-            for s in l.incoming() {
-                let Ok(mut s) = s else { continue };
+            while !stop.load(std::sync::atomic::Ordering::Relaxed) {
+                let Ok((mut s, _)) = l.accept() else {
+                    std::thread::sleep(Duration::from_millis(1));
+                    continue;
+                };
+                s.set_nonblocking(false).ok();
                 std::thread::spawn(move || {
                     s.set_read_timeout(Some(Duration::from_secs(3))).ok();
                     let mut buf = vec![];
@@ -158,25 +167,16 @@ fn start_backends(base: u16) {
 }
 
 /// UDP twins of the scripted backends: answer every datagram with the tag
-fn start_udp_backends(base: u16) {
+fn start_udp_backends(base: u16, stop: &Stop) {
     for i in 0..2u16 {
         if let Ok(sock) = std::net::UdpSocket::bind(("127.0.0.1", base + 4 + i)) {
+            sock.set_read_timeout(Some(Duration::from_millis(20))).ok();
+            let stop = stop.clone();
             std::thread::spawn(move || {
                 let mut buf = [0u8; 2048];
-                loop {
-                    match sock.recv_from(&mut buf) {
-                        Ok((_, from)) => {
-                            if std::env::var_os("C08_DEBUG").is_some() {
-                                eprintln!("udp mock b{i} got a datagram from {from}");
-                            }
-                            let _ = sock.send_to(format!("b{i}").as_bytes(), from);
-                        }
-                        Err(e) => {
-                            if std::env::var_os("C08_DEBUG").is_some() {
-                                eprintln!("udp mock b{i} recv error {e}");
-                            }
-                            continue;
-                        }
+                while !stop.load(std::sync::atomic::Ordering::Relaxed) {
+                    if let Ok((_, from)) = sock.recv_from(&mut buf) {
+                        let _ = sock.send_to(format!("b{i}").as_bytes(), from);
                     }
                 }
             });
@@ -184,7 +184,6 @@ fn start_udp_backends(base: u16) {
     }
 }
 
-/// one datagram through the worker's UDP listener: the tag that comes back
 /// `src` picks the client's loopback address: UDP flows are keyed by the client's address
 /// (by default its IP alone), so every probe that wants a flow of its own comes from another one
 fn udp_ping(port: u16, wait_ms: u64, src: u8) -> Option<String> {
@@ -309,6 +308,7 @@ fn http_get(port: u16, host: &str, path: &str) -> Option<(u16, String)> {
 }
 
 struct W {
+    stop: Stop,
     tcp_ambiguous: bool,
     n_tcp: usize,
     n_udp: usize,
@@ -495,7 +495,7 @@ fn start(base_port: u16) -> W {
             server.run();
         })
         .unwrap();
-    W { tcp_ambiguous: false, n_tcp: 0, n_udp: 0, n_tls: 0, n_listen: 0, n_http: 0, routing_unknown: false, probes: 0, unknown: vec![], peer: Peer::new(b), job: Some(job), _scm: s2k, base_port, n: 0, master: ConfigState::new() }
+    W { stop: Stop::default(), tcp_ambiguous: false, n_tcp: 0, n_udp: 0, n_tls: 0, n_listen: 0, n_http: 0, routing_unknown: false, probes: 0, unknown: vec![], peer: Peer::new(b), job: Some(job), _scm: s2k, base_port, n: 0, master: ConfigState::new() }
 }
 
 impl W {
@@ -550,7 +550,7 @@ impl W {
                 // a session opened by an earlier probe may keep the listener's socket alive for a
                 // moment after the listener is gone: closing is given one second
                 let t0 = Instant::now();
-                while got && !want && t0.elapsed() < Duration::from_secs(1) {
+                while got && !want && t0.elapsed() < Duration::from_secs(3) {
                     std::thread::sleep(Duration::from_millis(10));
                     got = tcp_accepts(port);
                 }
@@ -624,7 +624,7 @@ impl W {
             }
             for c in &clusters {
                 let tags = tags_of(&self.master, c);
-                if tags.is_empty() {
+                if tags.is_empty() || !self.master.clusters.contains_key(c) {
                     allowed.push(None);
                 }
                 allowed.extend(tags.into_iter().map(Some));
@@ -646,7 +646,9 @@ impl W {
             } else {
                 for c in &clusters {
                     let tags = tags_of(&self.master, c);
-                    if tags.is_empty() {
+                    // a frontend left behind by RemoveCluster: the view still lists it, the UDP
+                    // proxy forgot the cluster
+                    if tags.is_empty() || !self.master.clusters.contains_key(c) {
                         allowed.push(None);
                     }
                     allowed.extend(tags.into_iter().map(Some));
@@ -766,9 +768,10 @@ fn run(case: &Case, out: &mut Out) {
         match op.name.as_str() {
             "worker" => {
                 let base = pick_base();
-                start_backends(base);
-                start_udp_backends(base);
-                w = Some(start(base));
+                let wk = start(base);
+                start_backends(base, &wk.stop);
+                start_udp_backends(base, &wk.stop);
+                w = Some(wk);
                 out.obs(&[]);
             }
             "send" => {
@@ -930,7 +933,17 @@ fn run(case: &Case, out: &mut Out) {
             "end" => {
                 if let Some(mut wk) = w.take() {
                     out.note(&format!("probes: {} connect, {} http, {} tcp, {} udp, {} tls", wk.n_listen, wk.n_http, wk.n_tcp, wk.n_udp, wk.n_tls));
+                    wk.stop.store(true, std::sync::atomic::Ordering::Relaxed);
                     if !dead {
+                        // a worker run in a thread never drops its listen sockets: deactivating the
+                        // listeners closes them, so that the block of ports can be used again
+                        for (p, proxy) in [(0u16, 0i32), (1, 1), (2, 2), (3, 3)] {
+                            wk.n += 1;
+                            let id = format!("REQ-{}", wk.n);
+                            wk.send(&id, &Request { request_type: Some(RequestType::DeactivateListener(DeactivateListener { address: addr(wk.base_port + p), proxy, to_scm: false })) });
+                        }
+                        let mut sink = vec![];
+                        let _ = wk.collect("none", &mut sink);
                         wk.n += 1;
                         let id = format!("REQ-{}", wk.n);
                         wk.send(&id, &Request { request_type: Some(RequestType::HardStop(HardStop {})) });
